@@ -4,7 +4,7 @@ import json, subprocess, os
 V = os.path.dirname(os.path.dirname(os.path.abspath(__file__)))
 hook = subprocess.check_output(["git", "-C", "/repo", "log", "--format=%H", "--grep=verif_hooks feature", "-n", "1"], text=True).strip()
 
-RUN = "every schedule of every option combination on all graphs with n <= 2 (quick) / n <= 3 (thorough) functions enumerated exhaustively, deterministic sweeps across size / count thresholds (graphs beyond 1024 functions, every number of FnRef drops between two polls on wide joins, limited calls on two-broom graphs whose waiting functions come from generations far apart; DESIGN 2.8a; the exhaustive tier has an exploration budget, DESIGN 2.8b), plus generated graph x option x schedule cases (proptest, tapes of u16 with shrinking; sizes to 320 functions incl. power-of-two boundaries; user futures that complete at once / wake themselves; one run in five inside tokio task polls with a generated cooperative-budget position; a fresh waker per poll; one case in 32 on a fresh thread after another run) under a single-threaded controlled executor / stream consumer that owns the schedule, on three builds of the harness (default features, interruptible, no debug assertions); "
+RUN = "every schedule of every option combination on all graphs with n <= 2 (quick) / n <= 3 (thorough) functions enumerated exhaustively, deterministic sweeps across size / count thresholds (graphs beyond 1024 functions, every number of FnRef drops between two polls on wide joins, limited calls on two-broom graphs whose waiting functions come from generations far apart, a size ladder that runs generated cases on every exact number of functions from 41 to 330 (thorough: 600) in every run; DESIGN 2.8a; the exhaustive tier has an exploration budget, DESIGN 2.8b), plus generated graph x option x schedule cases (proptest, tapes of u16 with shrinking; sizes to 320 functions incl. power-of-two boundaries; user futures that complete at once / wake themselves; one run in five inside tokio task polls with a generated cooperative-budget position; a fresh waker per poll; one case in 32 on a fresh thread after another run) under a single-threaded controlled executor / stream consumer that owns the schedule, on three builds of the harness (default features, interruptible, no debug assertions); "
 TB = "trusted base: the harness's own model (conflict relation, closures, reference algorithms), its controlled executor (gates + counting waker), proptest, rustc; schedules at poll granularity"
 P = {
  "C01": ("exploration", RUN + "oracle: trace invariant 'no two functions with conflicting declared access in flight together', relation computed from the generated access sets only", "§3 C01"),
@@ -13,20 +13,20 @@ P = {
  "C04": ("exploration", RUN + "oracle: exact deadlock verdict (pending, no wake-up signalled, nothing left that could signal one), panic (catch_unwind), livelock guard, no user future in flight at return; n = 0 and futures dropped midway included", "§3 C04"),
  "C05": ("exploration", "generated consumer behaviours (poll_next / FnRef drops in any number and order / interrupt / early drop of the stream) on generated graphs; oracle: state predicate after every action 'pending => wake-up signalled or no unyielded function has all predecessors dropped', end-of-stream exactness, no panic", "§3 C05"),
  "C06": ("exploration", RUN + "oracle: at every quiet point every function whose built-graph predecessors returned was started (no limit/interrupt/failure), plus structural half: every non-user edge is Data and joins a conflicting pair", "§3 C06"),
- "C07": ("fault_enumeration", "fault injection: generated non-empty failing subsets x graphs x schedules on the six try/control concurrent paths and both try_fold paths; oracle: result vs trace (exactly one error per failed function, no dependent started, in-flight work finished, first error for try_fold)", "§3 C07"),
+ "C07": ("fault_enumeration", "fault injection: generated non-empty failing subsets x graphs x schedules on the six try/control concurrent paths and both try_fold paths; oracle: result vs trace (exactly one error per failed function, no function ordered after a failed one started after the failure or already run before it, in-flight work finished, first error for try_fold); size ladder over every exact graph size 41..330", "§3 C07"),
  "C08": ("fault_enumeration", "the interrupt signal is injected at every generated schedule point (before the call, between items, while in flight, at the limit, after the last start) x strategy x n x include flag x API; oracle: bound on starts after the signal, nothing started is lost, differential no-op for NonInterruptible/IgnoreInterruptions", "§3 C08"),
  "C09": ("exploration", RUN + "oracle: returned StreamOutcome (processed order, not-processed list, state, Continue/Break) against the trace of the same run", "§3 C09"),
  "C10": ("exploration", RUN + "oracle: max in flight <= limit (1 for folds), and any limit >= 1 still completes every clean run", "§3 C10"),
- "C11": ("exploration", "exhaustive small DAGs x access declarations + big builds (> 2^16 pair look-ups, 1100-deep chain, sparse DAGs of 1030+ / 2050+ functions) + build histories (K builds in between, K around 2^8 and 2^16) + random builder call sequences to 300 functions, on three builds (default, without the async feature, without debug assertions); oracle: validity predicate of the built graph (total, acyclic, functions and user edges kept, extra edges only Data between conflicting functions, every conflicting pair ordered)", "§3 C11"),
- "C12": ("exploration", "exhaustive small DAGs x declarations + random to 300 functions, on three builds (default, without async, without debug assertions); oracles: direction rule and non-redundancy, differential against a span-ordered reference construction, == iff effective call sequences equal (metamorphic mutations)", "§3 C12"),
- "C13": ("exploration", "exhaustive DAGs (n <= 4 quick, n <= 5 thorough) + big builds + build histories + random to 300 functions, all insertion orders, three builds; oracle: own longest-path DP", "§3 C13"),
- "C14": ("exploration", "exhaustive small DAGs x declarations + random (sequences of walks on one graph value incl. abandoned, interleaved and panicking ones), three builds; oracle: permutation + every built edge respected for all sequential walkers, insertion order for iter_insertion*, failing position for try_fold/try_for_each", "§3 C14"),
- "C15": ("exploration", "generated histories (1-3 earlier runs: completed, failed, interrupted, future/stream dropped midway, FnRefs and stream values kept alive into later runs, sequential walks) then a last run; long histories (256-319 repetitions, thorough 65600); oracle: differential, reused graph vs freshly built graph, identical trace and result", "§3 C15"),
+ "C11": ("exploration", "exhaustive small DAGs x access declarations + big builds (> 2^16 pair look-ups, 1100-deep chain, sparse DAGs of 1030+ / 2050+ functions) + build histories (K builds in between, K around 2^8 and 2^16) + random builder call sequences to 300 functions (functions inserted by add_fn or by the batch form add_fns) + a size ladder over every exact number of functions 33..340 (thorough: 700), on three builds (default, without the async feature, without debug assertions); oracle: validity predicate of the built graph (total, acyclic, functions and user edges kept, extra edges only Data between conflicting functions, every conflicting pair ordered)", "§3 C11"),
+ "C12": ("exploration", "exhaustive small DAGs x declarations + random to 300 functions + size ladder (every exact size 33..340), on three builds (default, without async, without debug assertions); oracles: direction rule and non-redundancy, differential against a span-ordered reference construction, == iff effective call sequences equal (metamorphic mutations)", "§3 C12"),
+ "C13": ("exploration", "exhaustive DAGs (n <= 4 quick, n <= 5 thorough) + big builds + build histories + random to 300 functions + size ladder (every exact size 33..340), all insertion orders, three builds; oracle: own longest-path DP", "§3 C13"),
+ "C14": ("exploration", "exhaustive small DAGs x declarations + random (sequences of walks on one graph value incl. abandoned, interleaved and panicking ones) + size ladder (every exact size 33..340), three builds; oracle: permutation + every built edge respected for all sequential walkers, insertion order for iter_insertion*, failing position for try_fold/try_for_each", "§3 C14"),
+ "C15": ("exploration", "generated histories (1-3 earlier runs: completed, failed, interrupted, future/stream dropped midway, FnRefs and stream values kept alive into later runs, sequential walks) then a last run; long histories (256-319 repetitions, thorough 65600); size ladder (every exact graph size 25..270); oracle: differential, reused graph vs freshly built graph, identical trace and result", "§3 C15"),
  "C16": ("exploration", "model-based: generated builder call sequences (single and batch edge calls, both kinds, repeats, reversed pairs, self edges; to 12 functions, long ones of 300-800 calls, large node sets with hubs) + exhaustive over 3 functions, three builds; oracle: reachability model after every call and edge set after build", "§3 C16"),
- "C17": ("exploration", "exhaustive small DAGs x declarations + iteration-work families (CPU-time budget) + random (node type with a data-carrying enum, 128-bit integers; abandoned and lock-step walks), three builds; oracle: GraphInfo mirrors nodes/edges incl. Data, JSON and YAML round trips (== and structural), iter / iter_rev topological", "§3 C17"),
+ "C17": ("exploration", "exhaustive small DAGs x declarations + iteration-work families (CPU-time budget) + random (node type with a data-carrying enum, 128-bit integers; abandoned and lock-step walks) + size ladder (every exact size 33..340), three builds; oracle: GraphInfo mirrors nodes/edges incl. Data, round trips (== and structural) through JSON text / value tree / reader, YAML and a compact not-human-readable binary serde format of the harness's own, iter / iter_rev topological also on the deserialised value", "§3 C17"),
  "C18": ("exploration", "generated path-explosive families (complete, layered, diamond chains, disjoint parts, forest-by-count, data-edge re-convergence, reader + ladder, rejected back edge; increasing size, stop at first violation; thread-CPU-time budget; a build() that has used 60 s of CPU without returning is reported at once by the build watchdog, DESIGN 2.8b) + random; oracle: RankCalc visit counter (hook) <= n^2+n and data-access queries <= 4n^2+4n", "§3 C18"),
  "C19": ("exploration", "generated caller programs from a grammar (API x function type incl. a borrowing one x future style incl. borrowing and combinator futures x error type x use incl. nested Send async blocks x feature set) decided by the type checker (cargo check), negative controls must be rejected; thorough: whole grammar + execution of the thread-moving programs", "§3 C19"),
- "C20": ("exploration", "generated pairs/triples (rarely 9-12) of simultaneous runs on one &FnGraph with an interleaved schedule (separate tasks incl. a poll of one run inside a poll of another, or one task / one tokio task), long overlaps (K = 2^8, 2^16 other runs during one run); oracle: non-interference differential (each run replayed alone with its projected actions gives the identical trace and result) + per-run oracles", "§3 C20"),
+ "C20": ("exploration", "generated pairs/triples (rarely 9-12) of simultaneous runs on one &FnGraph with an interleaved schedule (separate tasks incl. a poll of one run inside a poll of another, or one task / one tokio task), long overlaps (K = 2^8, 2^16 other runs during one run), size ladder (every exact graph size 25..270); oracle: non-interference differential (each run replayed alone with its projected actions gives the identical trace and result) + per-run oracles", "§3 C20"),
 }
 TECH = {
  "C01": "property-based testing (proptest) over graphs x options x schedules with a controlled executor; trace-invariant oracle",
